@@ -77,7 +77,24 @@ FLOAT3 = ['pos', 'f3']
 # ints as int32).  Float values are generated to suit the variant (unsigned: non-negative whole numbers, bool: 0 / 1); where a
 # value still does not fit (negative ints for an unsigned dtype, any int property for bool, |v| >= 128 for 8 bits) the
 # signed / next wider dtype is taken.  'pyint' hands over nested lists of Python ints / a Python int.
-AF_LABEL = {2: 'af:noncontig', 3: 'af:readonly', 4: 'af:tuple', 5: 'af:int', 6: 'af:npscalar'}
+# Form 7 (cross-pollinated storage / input dtype class): the values in a narrow or byte-swapped dtype of their own kind -
+# float32 / float16 / big-endian float64 / big-endian float32 for float values (all values are exactly representable there;
+# where one is not, big-endian float64 is taken), big-endian int64 / int32 / int16 / uint32 for integer values; encoded like
+# form 5 in the tens digit (7, 17, 27, 37).  As for form 5, a property that does not exist yet is created with form 0.
+AF_LABEL = {2: 'af:noncontig', 3: 'af:readonly', 4: 'af:tuple', 5: 'af:int', 6: 'af:npscalar', 7: 'af:narrow'}
+FLT_VARIANTS = ['float32', 'float16', '>f8', '>f4']
+BE_INT_VARIANTS = ['>i8', '>i4', '>i2', '>u4']
+# storage dtypes of the object under test (case field init['sd'], 1-based index): the arrays given to the constructor are kept
+# as they are ("direct setting"), so the properties are STORED in these dtypes for the whole history: 't' atom types, 'i'
+# integer properties, 'p' three-component floats (pos, f3: also written through the scaled routes), 'f' the other floats.
+# Every value generated for such a history (r/8, |r| < 2048; cell arithmetic on them < 2**24 / 16) is exactly representable.
+STORAGE = [
+    {'t': 'uint8', 'i': 'int16', 'p': 'float32', 'f': 'float16'},
+    {'t': 'int8', 'i': 'int32', 'p': 'float32', 'f': 'float32'},
+    {'t': '>i4', 'i': '>i8', 'p': '>f8', 'f': '>f4'},
+    {'t': 'uint16', 'i': '>i2', 'p': '>f4', 'f': 'float16'},
+    {'t': '>u2', 'i': 'int16', 'p': 'float32', 'f': '>f8'},
+]
 NPSCALAR = {'t': np.int64, 'i': np.int64, 'f': np.float64, 'b': np.bool_}
 INT_VARIANTS = ['int64', 'int32', 'int16', 'int8', 'uint8', 'uint16', 'uint32', 'uint64', 'bool', 'pyint']
 
@@ -129,6 +146,71 @@ def int_typed(arr, kind, variant, used=None):
     return out
 
 
+def narrow_typed(arr, kind, variant, used=None):
+    """form 7: arr in a narrow / byte-swapped dtype of its own kind (values unchanged, checked)"""
+    if kind == 'f':
+        name = FLT_VARIANTS[variant % len(FLT_VARIANTS)]
+        out = arr.astype(name)
+        if not np.array_equal(out.astype(np.float64), arr):
+            name = '>f8'
+            out = arr.astype(name)
+    elif kind in 'ti':
+        name = BE_INT_VARIANTS[variant % len(BE_INT_VARIANTS)]
+        if name == '>u4' and arr.size and int(arr.min()) < 0:
+            name = '>i4'
+        out = arr.astype(name)
+        if not np.array_equal(out.astype(np.int64), arr):
+            name = '>i8'
+            out = arr.astype(name)
+    else:
+        return arr
+    if not np.array_equal(out.astype(arr.dtype), arr):
+        raise HarnessError('values %r do not fit %s' % (arr.tolist(), name))
+    if used is not None:
+        used.add(AF_LABEL[7])
+        used.add('af:narrow:bigendian' if name.startswith('>') else 'af:narrow:' + name)
+    return out
+
+
+def freeze(obj):
+    """bit-for-bit, hashable image of anything handed to or returned by the code under test (dtype, shape, bytes in C order,
+    the writeable flag; containers recursively; an Atoms object as its ordered properties)"""
+    if isinstance(obj, np.ndarray):
+        return ('nd', obj.dtype.str, obj.shape, bool(obj.flags.writeable), obj.tobytes())
+    if isinstance(obj, np.generic):
+        return ('ns', obj.dtype.str, obj.tobytes())
+    if isinstance(obj, (list, tuple)):
+        return (type(obj).__name__,) + tuple(freeze(x) for x in obj)
+    if isinstance(obj, slice):
+        return ('slice', freeze(obj.start), freeze(obj.stop), freeze(obj.step))
+    if obj is None or isinstance(obj, (bool, int, float, str)):
+        return (type(obj).__name__, obj)
+    if hasattr(obj, 'view') and hasattr(obj, 'natoms'):
+        return ('atoms', obj.natoms) + tuple((k, freeze(v)) for k, v in obj.view.items())
+    raise HarnessError('cannot freeze %r' % type(obj))
+
+
+def frozen_diff(a, b):
+    """where two images made by freeze() differ (short text for the report)"""
+    def show(x):
+        if x[0] == 'nd':
+            return '%s%r%s %r' % (x[1], x[2], '' if x[3] else ' read-only', np.frombuffer(x[4], dtype=x[1]).reshape(x[2]).tolist())
+        return repr(x)[:200]
+    if a == b:
+        return 'identical'
+    if a[0] != b[0] or a[0] in ('nd', 'ns') or len(a) != len(b):
+        return '%s -> %s' % (show(a), show(b))
+    for i, (x, y) in enumerate(zip(a, b)):
+        if x != y:
+            if isinstance(x, tuple) and isinstance(y, tuple) and len(x) == 2 and len(y) == 2 and isinstance(x[0], str) \
+                    and x[0] == y[0] and isinstance(x[1], tuple) and isinstance(y[1], tuple) and x[0] not in ('nd', 'ns'):
+                return '%r: %s' % (x[0], frozen_diff(x[1], y[1]))
+            if isinstance(x, tuple) and isinstance(y, tuple) and x and y:
+                return 'item %d: %s' % (i - 1, frozen_diff(x, y))
+            return '%r -> %r' % (x, y)
+    return 'different'
+
+
 def noncontig(arr):
     """an array equal to arr that is not C-contiguous (where the shape allows one)"""
     if arr.ndim >= 2 and arr.shape[0] % 2 == 0:
@@ -174,13 +256,15 @@ def to_arg(values, kind, tshape, aslist, used=None):
             if used is not None:
                 used.add(AF_LABEL[5])
             return int_typed(arr, kind, afv(aslist), used)
+    if af == 7:
+        return narrow_typed(arr, kind, afv(aslist), used)
     return arr
 
 
 def one_arg(v, kind, tshape, aslist, new=False, used=None):
     """a single per-atom value: Python scalar / nested list, or ndarray of shape tshape (forms as in to_arg)"""
     af = afc(aslist)
-    if af == 5 and new:
+    if af in (5, 7) and new:
         af = 0
     if kind == 's':
         if new or af not in (1, 4):
@@ -218,6 +302,9 @@ def one_arg(v, kind, tshape, aslist, new=False, used=None):
                 return int(v)
             out = int_typed(arr, kind, afv(aslist), used)
             return out[()] if tshape == () and isinstance(out, np.ndarray) and afv(aslist) % 2 else out     # numpy scalar / 0-d array
+    if af == 7:
+        out = narrow_typed(arr, kind, afv(aslist), used)
+        return out[()] if tshape == () and afv(aslist) % 2 else out         # numpy scalar / 0-d array
     return arr
 
 
@@ -328,6 +415,13 @@ class Run:
         self.na_hi = 0              # largest number of atom types since symbols was last set / read
         self.ns_hi = 0              # largest possible System.natypes since masses was last set / read
         self.prev_s = None
+        self.ledger = []            # class A: [what, object, image made by freeze(), step it was made at, judged later?]
+        self.stepno = -1
+        self.side_step = -1         # last step at which a call was made on ANOTHER object
+        # class C: storage dtypes of the object under test (only where the constructor keeps the arrays it is given)
+        sd = init.get('sd') or 0
+        self.storage = STORAGE[(sd - 1) % len(STORAGE)] if sd and init['ctor'] in ('arrays', 'prop') else None
+        self.narrow = self.storage is not None
         m = self.m = M.Model()
         n = 1 + init['n'] % 6
         src = M.Src(init['vals'], tmax=3)
@@ -352,7 +446,10 @@ class Run:
         else:
             names = [nm for j, nm in enumerate(POOLNAMES) if (init['props'] >> j) & 1]
             atoms, m.rows, m.schema = self.build_atoms(n, names, src, aslist, via_prop=(ctor == 'prop'),
-                                                       safecopy=bool(init['safecopy']))
+                                                       safecopy=bool(init['safecopy']), storage=self.storage)
+            if self.narrow:
+                self.labels.add('sd')
+                self.labels.add('sd:bigendian' if any(v.dtype.byteorder == '>' for v in atoms.view.values()) else 'sd:native')
         # per-type data
         syms = init['symbols']
         masses = init['masses']
@@ -371,8 +468,19 @@ class Run:
         scale = bool(init['scale'])
         if scale:
             rel = [r['pos'] for r in m.rows]
-        self.s = am.System(atoms=atoms, box=box, pbc=list(init['pbc']), scale=scale,
-                           safecopy=bool(init['safecopy']), **kw)
+        kw['pbc'] = list(init['pbc'])
+        self.s = self.guarded(lambda: am.System(atoms=atoms, box=box, scale=scale, safecopy=bool(init['safecopy']), **kw),
+                              kw, 'System(...)')
+        if init.get('mut'):
+            # class B: the caller goes on using the lists it handed in
+            for lst, junk in ((kw['pbc'], None), (kw.get('symbols'), 'Zz'), (kw.get('masses'), 999.0)):
+                if isinstance(lst, list):
+                    if junk is None:
+                        lst[0] = not lst[0]
+                    else:
+                        lst.append(junk)
+                        lst[0] = junk
+                    self.labels.add('mut:in')
         if syms is None:
             m.symbols = [None] * (len(masses) if masses is not None else 0)
         else:
@@ -393,7 +501,7 @@ class Run:
     def one_arg(self, v, kind, tshape, af, new=False):
         return one_arg(v, kind, tshape, af, new=new, used=self.labels)
 
-    def build_atoms(self, n, names, src, aslist, via_prop=False, safecopy=False, reverse=False):
+    def build_atoms(self, n, names, src, aslist, via_prop=False, safecopy=False, reverse=False, storage=None):
         rows = [dict() for _ in range(n)]
         schema = OrderedDict()
         kw = OrderedDict()
@@ -405,7 +513,17 @@ class Run:
             schema[name] = (kind, tshape)
             # integer-typed form only for properties the object under test already has (as float64): a property that
             # only the argument has rightly keeps the integer dtype it was given
-            kw[name] = self.to_arg(vals, kind, tshape, aslist if (afc(aslist) != 5 or name in self.m.schema) else 0)
+            af = aslist if (afc(aslist) not in (5, 7) or name in self.m.schema) else 0
+            if afc(af) == 7 and name in FLOAT3 and FLT_VARIANTS[afv(af) % len(FLT_VARIANTS)] == 'float16':
+                af = 7          # positions of an argument are unscaled in place by the scaled routes: float32 holds those values
+            kw[name] = self.to_arg(vals, kind, tshape, af)
+            if storage is not None and kind != 'b' and kind != 's':
+                dt = storage['t' if kind == 't' else 'i' if kind == 'i' else 'p' if name in FLOAT3 else 'f']
+                arr = M.to_array(vals, kind, tshape)
+                out = arr.astype(dt)
+                if not np.array_equal(out.astype(arr.dtype), arr):
+                    raise HarnessError('values %r do not fit the storage dtype %s' % (arr.tolist(), dt))
+                kw[name] = out
         if reverse:
             kw = OrderedDict(reversed(list(kw.items())))
         if via_prop:
@@ -428,7 +546,19 @@ class Run:
         mag = (float(np.abs(x).max()) if x.size else 0.0) + float(np.abs(self.o).max())
         return 1e-12 * (1.0 + mag) * float(np.abs(self.Vinv).sum(axis=0).max()) * 3
 
-    def sync_float3(self, name, sel, expected, what, atoms=None, rows=None):
+    def rowtol(self, x):
+        """class F: tolerance of a scaled read row by row - (x - origin).Vinv of one atom depends on that atom alone, so each
+        row is judged relative to ITS OWN magnitude (never looser than reltol of the whole array); shape x.shape[:-1] + (1,)"""
+        x = np.asarray(x, dtype=float)
+        mag = np.abs(x).max(axis=-1, keepdims=True) + float(np.abs(self.o).max())
+        return 1e-12 * mag * float(np.abs(self.Vinv).sum(axis=0).max()) * 3 + 1e-300
+
+    def r2c_tol(self, rel):
+        """forward error bound of rel.V + o in double precision for one row, any order of summation, with a margin of 10"""
+        r = np.abs(np.array(rel, dtype=float))
+        return 1e-14 * (r @ np.abs(self.V) + np.abs(self.o))
+
+    def sync_float3(self, name, sel, expected, what, atoms=None, rows=None, rel=None):
         """after a scaled write: stored Cartesian values must equal rel.V+o (1e-12 relative); the model then takes
         the stored numbers (they are exact for the dyadic cells used here, so this normally changes nothing)"""
         atoms = self.s.atoms if atoms is None else atoms
@@ -436,10 +566,15 @@ class Run:
         arr = atoms.view[name]
         require(isinstance(arr, np.ndarray) and arr.shape == (atoms.natoms, 3) and arr.dtype.kind == 'f',
                 lambda: '%s %s: view[%r] has shape %r dtype %r' % (self.where, what, name, getattr(arr, 'shape', None), getattr(arr, 'dtype', None)))
+        k = 0
         for i, e in zip(sel, expected):
             require(i < len(arr), lambda: '%s %s: row %d missing' % (self.where, what, i))
             got = arr[i]
             tol = 1e-12 * (1.0 + max(abs(c) for c in e))
+            if rel is not None:
+                # classes E / F: the relative coordinates handed in are known, so is the rounding error bound of the row
+                tol = np.minimum(tol, self.r2c_tol(rel[min(k, len(rel) - 1)]))
+            k += 1
             require(bool(np.all(np.abs(got - np.array(e)) <= tol)),
                     lambda: '%s %s: %s row %d is %r, expected rel.vects+origin = %r' % (self.where, what, name, i, got.tolist(), list(e)))
             if tuple(got.tolist()) != tuple(e):
@@ -454,8 +589,93 @@ class Run:
         self.s = self.am.System(atoms=atoms, box=self.s.box, pbc=list(m.pbc), symbols=list(m.symbols), masses=list(m.masses))
         self.na_hi = self.ns_hi = 0
 
-    def retire(self, what, atoms, rows, schema, intok=False):
-        self.retired.append((what, atoms, [dict(r) for r in rows], OrderedDict(schema), intok))
+    def retire(self, what, atoms, rows, schema, intok=False, free=True):
+        """operand / argument of an operation returning a new object: judged against its own rows at the end of the history,
+        bit for bit after every later step (ledger), and the target of calls 'on another object' (op side; written to only
+        when free: no sharing with the object under test is documented for it)"""
+        self.retired.append((what, atoms, [dict(r) for r in rows], OrderedDict(schema), intok, free))
+        self.keep('operand: ' + what, atoms)
+
+    # ---- class A: the ledger of everything handed out
+    def keep(self, what, obj):
+        """remember a returned object as it is now; it is re-judged bit for bit after every later step"""
+        if len(self.ledger) < 48:
+            self.ledger.append([what, obj, freeze(obj), self.stepno, self.where])
+
+    def rekeep(self, obj):
+        """the harness itself changed a kept object (side write): take its new image"""
+        for e in self.ledger:
+            if e[1] is obj:
+                e[2] = freeze(obj)
+
+    def forget(self, obj):
+        self.ledger = [e for e in self.ledger if e[1] is not obj]
+
+    def judge_ledger(self):
+        for what, obj, image, step, where in self.ledger:
+            now = freeze(obj)
+            require(now == image,
+                    lambda: '%s: the result handed out at %s (%s) changed during a later call: %s' % (self.where, where, what, frozen_diff(image, now)))
+            if step < self.stepno:
+                self.labels.add('ledger')
+                self.labels.add('ledger:atoms' if image[0] == 'atoms' else 'ledger:array' if image[0] == 'nd' else 'ledger:list')
+                if step < self.side_step:
+                    self.labels.add('ledger:across_objects')
+
+    # ---- class B: what the caller handed in
+    def guarded(self, fn, handed, what, skip=()):
+        """run fn(); every object handed in (name -> object) must be bit-identical afterwards (Atoms: all properties but skip)"""
+        def image(v):
+            f = freeze(v)
+            if skip and f[0] == 'atoms':
+                f = tuple(x for x in f if not (isinstance(x, tuple) and x[0] in skip))
+            return f
+        before = dict((k, image(v)) for k, v in handed.items())
+        out = fn()
+        for k, v in handed.items():
+            now = image(v)
+            require(now == before[k], lambda: '%s %s: the argument %r handed in was modified by the call: %s'
+                    % (self.where, what, k, frozen_diff(before[k], now)))
+        self.labels.add('in_unchanged')
+        return out
+
+    def mutate_in(self, op, *objs):
+        """class B: after the call the caller overwrites in place what it handed in (arrays; Atoms: every property)"""
+        if not op.get('mut'):
+            return False
+        done = False
+        for o in objs:
+            if isinstance(o, np.ndarray):
+                done = scribble(o) or done
+            elif hasattr(o, 'view'):
+                for arr in o.view.values():
+                    done = scribble(arr) or done
+            elif isinstance(o, list) and o:
+                o[0] = o[-1]
+                o.append(o[0])
+                done = True
+        if done:
+            self.labels.add('mut:in')
+        return done
+
+    def reusable(self, arg, kind):
+        """the scribbled argument can be handed in again as a value of the same property: its values survive the cast to the
+        property's dtype and back"""
+        if self.narrow or kind == 't' or not isinstance(arg, np.ndarray):
+            return False
+        if arg.dtype.kind == 'U':
+            return kind == 's'
+        back = arg.astype(M.DT[kind]).astype(arg.dtype)
+        return bool(np.array_equal(back, arg))
+
+    def vmode(self, op, aslist=0):
+        """class E / F: mode of the generated float values (None / 'tiny' / 'dec'); plain where whole numbers are needed or
+        the object under test stores narrow dtypes"""
+        vm = op.get('vm')
+        if vm is None or self.narrow or whole_of(aslist):
+            return None
+        self.labels.add('vm:' + vm)
+        return vm
 
     # ---- invariants of the main object
     # The derived quantities are *read* in an order that is part of the generated history (rd['o'], decoded by read_order), and
@@ -578,6 +798,7 @@ class Run:
             self.read(item, df=df)
         if inplace and left_out and first_pt:
             self.labels.add('rd:quiet_after_inplace_growth')
+        self.judge_ledger()
 
     def check_df(self, df, scaled, what):
         m = self.m
@@ -596,16 +817,17 @@ class Run:
                 got = list(df[col])
                 exp = full[(Ellipsis,) + ix].tolist() if ix else full.tolist()
                 if scaled and name == 'pos':
-                    tol = self.reltol(m.stack('pos'))
-                    ok = all(abs(float(g) - e) <= tol for g, e in zip(got, exp))
+                    tol = np.minimum(self.reltol(m.stack('pos')), self.rowtol(m.stack('pos')))[:, 0]      # row by row (class F)
+                    ok = all(abs(float(g) - e) <= t for g, e, t in zip(got, exp, tol))
                 else:
                     ok = all((g == e) for g, e in zip(got, exp))
                 require(ok, lambda: '%s %s: column %r is %r, model %r' % (w, what, col, got, exp))
 
     def finish(self, rd=None):
         self.where = 'end'
+        self.stepno = 10 ** 6
         self.check(df=True, rd=rd)
-        for what, atoms, rows, schema, intok in self.retired:
+        for what, atoms, rows, schema, intok, free in self.retired:
             check_atoms(atoms, rows, schema, 'at the end of the history, operand of %s' % what, intok=intok)
 
     # ---- name / value resolution
@@ -621,6 +843,7 @@ class Run:
     def step(self, k, op):
         name = op['op']
         self.where = 'step %d (%s)' % (k, name)
+        self.stepno = k
         self.labels.add('op:' + name)
         getattr(self, 'op_' + name)(op)
         self.check(df=(k % 5 == 4), rd=op.get('rd'))
@@ -644,9 +867,9 @@ class Run:
         new = name not in m.schema
         n = m.n
         aslist = op['aslist']
-        src = M.Src(op['vals'], tmax=op['tmax'], whole=whole_of(aslist))
+        src = M.Src(op['vals'], tmax=op['tmax'], whole=whole_of(aslist), mode=self.vmode(op, aslist))
         mode = op['mode']
-        if new and (afc(aslist) == 5 or (afc(aslist) == 3 and op['via'] in ('attr', 'view'))):
+        if new and (afc(aslist) in (5, 7) or (afc(aslist) == 3 and op['via'] in ('attr', 'view'))):
             aslist = 0          # see the table of forms
         if mode == 'scalar' and tshape != ():
             mode = 'len1'
@@ -664,19 +887,35 @@ class Run:
         via = op['via']
         self.labels.add('set:' + mode)
         self.labels.add('set_new' if new else 'set_overwrite')
-        if via == 'attr':
-            setattr(atoms, name, arg)
-        elif via == 'view':
-            atoms.view[name] = arg
-        elif via == 'prop':
-            atoms.prop(key=name, value=arg)
+        if src.exps and max(src.exps) - min(src.exps) >= 27:
+            self.labels.add('dec:8')        # one argument whose rows span 8+ decades
+        what = 'set of %r through %s' % (name, via)
+
+        def put():
+            if via == 'attr':
+                setattr(atoms, name, arg)
+            elif via == 'view':
+                atoms.view[name] = arg
+            elif via == 'prop':
+                atoms.prop(key=name, value=arg)
+            else:
+                s.atoms_prop(key=name, value=arg)
+        self.guarded(put, {'value': arg}, what)
+        m.set_all(name, values)
+        if via in ('prop', 'sysprop'):
             if scribble(arg):
                 self.labels.add('probe_prop_set_copy')   # "set copy of value to property"
-        else:
-            s.atoms_prop(key=name, value=arg)
-            if scribble(arg):
-                self.labels.add('probe_prop_set_copy')
-        m.set_all(name, values)
+        elif new and mode == 'full':
+            return      # attribute / view set of a new key with a full array: the array itself may be stored (see the forms)
+        elif not self.mutate_in(op, arg):
+            return
+        if op.get('mut') == 2 and self.reusable(arg, kind) and isinstance(arg, np.ndarray) and arg.flags.writeable:
+            # class B: the caller re-uses the array it has just overwritten for the next call: the property follows it
+            check_atoms(atoms, m.rows, m.schema, '%s: after the caller overwrote the array handed to the %s' % (self.where, what), width=m.width)
+            values2 = M.from_array(arg, kind, tshape, n)
+            self.guarded(put, {'value': arg}, what + ' (array re-used)')
+            m.set_all(name, values2)
+            self.labels.add('mut:reuse')
 
     # indexed assignment -----------------------------------------------------------------------
     def resolve(self, spec, force_int=False, nonempty=False):
@@ -684,6 +923,9 @@ class Run:
         if force_int and spec['k'] not in ('int', 'neg'):
             spec = {'k': 'int', 'a': spec.get('a') or 0, 'np': False}
         form, obj, sel = M.resolve_index(spec, n)
+        if spec['k'] == 'perm':
+            self.labels.add('idx:perm')
+            self.labels.add('idx:perm:' + M.PERMS[spec['p'] % len(M.PERMS)])
         if nonempty and not sel:
             form, obj, sel = 'int', 0, [0]
             self.labels.add('empty_replaced')
@@ -713,7 +955,7 @@ class Run:
         if form == 'all':
             idx = slice(None)
         aslist = op['aslist']
-        src = M.Src(op['vals'], tmax=op['tmax'], whole=whole_of(aslist))
+        src = M.Src(op['vals'], tmax=op['tmax'], whole=whole_of(aslist), mode=self.vmode(op, aslist))
         if form == 'int' or op['vmode'] == 'one':
             v = src.one(kind, tshape)
             arg = self.one_arg(v, kind, tshape, aslist)
@@ -721,34 +963,48 @@ class Run:
         else:
             values = src.many(kind, tshape, len(sel))
             arg = self.to_arg(values, kind, tshape, aslist)
-        if via == 'prop':
-            atoms.prop(key=name, index=idx, value=arg)
-        elif via == 'sysprop':
-            s.atoms_prop(key=name, index=idx, value=arg)
-        elif via == 'a_id':
-            atoms.prop(key=name, a_id=idx, value=arg)
-        else:
-            atoms.view[name][idx] = arg        # documented in-place route: view hands out the storage itself
+        if src.exps and max(src.exps) - min(src.exps) >= 27:
+            self.labels.add('dec:8')
+
+        def put():
+            if via == 'prop':
+                atoms.prop(key=name, index=idx, value=arg)
+            elif via == 'sysprop':
+                s.atoms_prop(key=name, index=idx, value=arg)
+            elif via == 'a_id':
+                atoms.prop(key=name, a_id=idx, value=arg)
+            else:
+                atoms.view[name][idx] = arg        # documented in-place route: view hands out the storage itself
+        what = 'indexed set of %r through %s' % (name, via)
+        self.guarded(put, {'value': arg, 'index': idx}, what)
         m.set_rows(name, sel, values)
         self.indexed_write()
+        if self.mutate_in(op, arg) and op.get('mut') == 2 and sel and self.reusable(arg, kind) and arg.flags.writeable:
+            check_atoms(atoms, m.rows, m.schema, '%s: after the caller overwrote the array handed to the %s' % (self.where, what), width=m.width)
+            count = 1 if (form == 'int' or op['vmode'] == 'one') else len(sel)
+            values2 = M.from_array(arg, kind, tshape, count)
+            self.guarded(put, {'value': arg, 'index': idx}, what + ' (array re-used)')
+            m.set_rows(name, sel, values2)
+            self.labels.add('mut:reuse')
 
     def op_scaled_set(self, op):
         m, s = self.m, self.s
-        src = M.Src(op['vals'], whole=whole_of(op['aslist']))
+        vm = self.vmode(op, op['aslist'])
+        src = M.Src(op['vals'], whole=whole_of(op['aslist']), mode=vm)
         name = FLOAT3[op['name'] % 2]
         spec = op['idx']
         if name not in m.schema and spec['k'] != 'all':
             name = 'pos'
-        form, idx, sel = self.resolve(spec)
+        form, idx, sel = self.resolve(spec, force_int=bool(op.get('aid')))
         if form == 'all':
             mode = 'full' if op['vmode'] == 'many' else 'len1'
             rel = src.many('f', (3,), m.n) if mode == 'full' else [src.one('f', (3,))]
             arg = self.to_arg(rel, 'f', (3,), op['aslist'])
-            s.atoms_prop(key=name, value=arg, scale=True)
+            self.guarded(lambda: s.atoms_prop(key=name, value=arg, scale=True), {'value': arg}, 'atoms_prop(%r, value, scale=True)' % name)
             if name not in m.schema:
                 m.set_all(name, [(0.0, 0.0, 0.0)] * m.n)
             exp = [self.r2c(r) for r in rel] * (m.n if mode == 'len1' else 1)
-            self.sync_float3(name, sel, exp, 'atoms_prop(%r, value, scale=True)' % name)
+            self.sync_float3(name, sel, exp, 'atoms_prop(%r, value, scale=True)' % name, rel=rel if vm else None)
         else:
             if form == 'int' or op['vmode'] == 'one':
                 rel = [src.one('f', (3,))]
@@ -756,16 +1012,30 @@ class Run:
             else:
                 rel = src.many('f', (3,), len(sel))
                 arg = self.to_arg(rel, 'f', (3,), op['aslist'])
-            s.atoms_prop(key=name, index=idx, value=arg, scale=True)
+            if op.get('aid'):
+                # class H: the a_id spelling of an integer index together with value and scale
+                self.guarded(lambda: s.atoms_prop(key=name, a_id=idx, value=arg, scale=True), {'value': arg, 'a_id': idx},
+                             'atoms_prop(%r, a_id, value, scale=True)' % name)
+                self.labels.add('opt:aid_scaled_set')
+            else:
+                self.guarded(lambda: s.atoms_prop(key=name, index=idx, value=arg, scale=True), {'value': arg, 'index': idx},
+                             'atoms_prop(%r, index, value, scale=True)' % name)
             exp = [self.r2c(r) for r in rel]
+            rels = list(rel)
             if len(exp) == 1 and len(sel) != 1:
                 exp = exp * len(sel)
+                rels = rels * len(sel)
             # repeated rows: last value wins
             last = {}
-            for i, e in zip(sel, exp):
-                last[i] = e
-            self.sync_float3(name, list(last), [last[i] for i in last], 'atoms_prop(%r, index, value, scale=True)' % name)
+            for i, e, r in zip(sel, exp, rels):
+                last[i] = (e, r)
+            self.sync_float3(name, list(last), [last[i][0] for i in last], 'atoms_prop(%r, index, value, scale=True)' % name,
+                             rel=[last[i][1] for i in last] if vm else None)
             self.indexed_write()
+        if src.exps and max(src.exps) - min(src.exps) >= 27:
+            self.labels.add('dec:8')
+            self.labels.add('dec:8:scaled')
+        self.mutate_in(op, arg)
 
     # reads ------------------------------------------------------------------------------------
     def op_get(self, op):
@@ -791,10 +1061,22 @@ class Run:
         require(ga.shape == exp.shape, lambda: '%s: %s get of %r index %r has shape %r, expected %r' % (self.where, via, name, idx, ga.shape, exp.shape))
         if via == 'scaled':
             expr = self.c2r(exp)
-            tol = self.reltol(exp)
+            tol = np.minimum(self.reltol(exp), self.rowtol(exp))       # row by row (class F)
             require(bool(np.all(np.abs(ga - expr) <= tol)),
                     lambda: '%s: scaled get of %r index %r = %r, expected %r' % (self.where, name, idx, ga.tolist(), expr.tolist()))
             self.labels.add('scaled_get')
+            if exp.ndim == 2 and 2 <= len(sel) <= 4:
+                # class F: every row of the array call equals the single-row call (to a few ulp of that row's own terms)
+                for j, i in enumerate(sel):
+                    one = np.asarray(s.atoms_prop(key=name, index=i, scale=True))
+                    require(one.shape == (3,) and bool(np.all(np.abs(one - ga[j]) <= 1e-3 * self.rowtol(exp[j]))),
+                            lambda: '%s: scaled get of %r index %r: row %d is %r, the call for atom %d alone gives %r'
+                            % (self.where, name, idx, j, ga[j].tolist(), i, one.tolist()))
+                self.labels.add('scaled_get_rowwise')
+            mags = np.abs(exp).max(axis=-1) if exp.ndim == 2 and len(exp) else np.zeros(0)
+            mags = mags[mags > 0]
+            if len(mags) >= 2 and mags.max() / mags.min() >= 1e8:
+                self.labels.add('dec:8:scaled_get')
         else:
             require(ga.dtype.kind in M.NPKIND[kind] and np.array_equal(ga, exp),
                     lambda: '%s: %s get of %r index %r = %r, model %r' % (self.where, via, name, idx, ga.tolist(), exp.tolist()))
@@ -803,6 +1085,8 @@ class Run:
                     lambda: '%s: array returned by %s get of %r index %r shares memory with the stored property' % (self.where, via, name, idx))
             if scribble(got):
                 self.labels.add('probe_get_copy')
+        if isinstance(got, (np.ndarray, np.generic)):
+            self.keep('%s get of %r index %r' % (via, name, idx), got)      # class A (as the caller left it)
 
     def op_getatoms(self, op):
         m, s = self.m, self.s
@@ -825,6 +1109,7 @@ class Run:
                 keys = atoms.prop()
                 require(isinstance(keys, list) and sorted(keys) == sorted(m.schema), lambda: '%s: prop() = %r' % (self.where, keys))
                 keys.append('junk')     # a fresh list: appending must not create a property
+                self.keep('prop() key list', keys)
                 return
             sub = atoms.prop(index=idx)
         elif via == 'a_id':
@@ -839,7 +1124,7 @@ class Run:
             sub = s.atoms_prop(scale=True) if form == 'all' else s.atoms_prop(index=idx, scale=True)
             got = sub.view['pos']
             exp = self.c2r(m.stack('pos', rows))
-            require(got.shape == exp.shape and bool(np.all(np.abs(got - exp) <= self.reltol(m.stack('pos', rows)))),
+            require(got.shape == exp.shape and bool(np.all(np.abs(got - exp) <= np.minimum(self.reltol(m.stack('pos', rows)), self.rowtol(m.stack('pos', rows))))),
                     lambda: '%s: %s: scaled pos %r, expected %r' % (self.where, what, got.tolist(), exp.tolist()))
             for r, g in zip(rows, got):
                 r['pos'] = tuple(float(c) for c in g)
@@ -876,6 +1161,7 @@ class Run:
             done = [scribble(sub.view[key]) for key in schema]
             if any(done):
                 self.labels.add('probe_extract_copy')
+            self.keep(what, sub)        # class A (as the caller left it)
 
     def adopt_masses(self, system, what):
         """masses of a System built by atoms_ix[...] / atoms_extend are not specified: any tuple of None/float that is long enough"""
@@ -897,8 +1183,9 @@ class Run:
         if n + n_other > NMAX:
             self.labels.add('skip_nmax')
             return
-        src = M.Src(op['vals'], tmax=op['tmax'], whole=whole_of(op['aslist']))
         scale = bool(op['scale']) and via == 'system' and op['what'] == 'atoms'
+        vm = self.vmode(op, op['aslist']) if op['what'] != 'int' else None
+        src = M.Src(op['vals'], tmax=op['tmax'], whole=whole_of(op['aslist']), mode=vm)
         if op['what'] == 'int':
             value = n_other
             orows = [{'atype': 1, 'pos': (0.0, 0.0, 0.0)} for _ in range(n_other)]
@@ -907,7 +1194,11 @@ class Run:
             self.labels.add('ext:int')
         else:
             names = [nm for j, nm in enumerate(POOLNAMES) if (op['pbits'] >> j) & 1]
-            other, orows, oschema = self.build_atoms(n_other, names, src, op['aslist'])
+            if op.get('eq'):
+                # class G: exactly the property set of the object extended, in its order (1) or in the reversed order (2)
+                names = [x for x in m.schema if x not in ('atype', 'pos')]
+                self.labels.add('ext:same_order' if op['eq'] == 1 else 'ext:reversed_order')
+            other, orows, oschema = self.build_atoms(n_other, names, src, op['aslist'], reverse=(op.get('eq') == 2))
             value = other
             mine, theirs = set(m.schema) - {'atype', 'pos'}, set(names)
             self.labels.add('ext:equal' if mine == theirs else 'ext:subset' if theirs < mine else
@@ -932,15 +1223,17 @@ class Run:
         # entry is shorter than a later one
         trunc = (other is not None and 's0' in oschema and 's0' not in m.schema
                  and len(orows[0]['s0']) < max(len(r['s0']) for r in orows))
+        handed = {} if other is None else {'value': other}
         try:
             if via == 'atoms':
-                new = atoms.extend(value)
+                new = self.guarded(lambda: atoms.extend(value), handed, what)
             else:
                 kw = {}
                 if syms is not None:
                     kw['symbols'] = list(syms)
+                    handed['symbols'] = kw['symbols']
                 try:
-                    newsys = s.atoms_extend(value, scale=scale, safecopy=safecopy, **kw)
+                    newsys = self.guarded(lambda: s.atoms_extend(value, scale=scale, safecopy=safecopy, **kw), handed, what)
                 except ValueError as e:
                     if blocked and 'broadcast' in str(e):
                         raise Violation('%s: %s on a system of %d atoms raised ValueError(%s)' % (self.where, what, n, e))
@@ -951,7 +1244,8 @@ class Run:
             if scale:
                 # tolerance comparison of the unscaled new rows first, then exact comparison of everything
                 require(new.natoms == n + n_other, lambda: '%s: %s: natoms %d, expected %d' % (self.where, what, new.natoms, n + n_other))
-                self.sync_float3('pos', list(range(n, n + n_other)), [r['pos'] for r in nrows[n:]], what, atoms=new, rows=nrows)
+                self.sync_float3('pos', list(range(n, n + n_other)), [r['pos'] for r in nrows[n:]], what, atoms=new, rows=nrows,
+                                 rel=rel if vm else None)
             check_atoms(new, nrows, nschema, '%s: %s' % (self.where, what))
             if other is not None and 's0' in oschema and 's0' not in m.schema and new.view['s0'].dtype.itemsize // 4 < 4:
                 # footprint of the open finding KEY_WIDTH without immediate loss of data (every entry fits the width of the
@@ -965,15 +1259,29 @@ class Run:
                 raise Violation(v.detail, key=KEY_SCALE)
             raise
         # operands unchanged (the System/Atoms extended is re-checked by self.check(); the argument here)
+        # atoms_extend(safecopy=False) documents that objects may be shared with the input parameters: the argument is written to
+        # afterwards (here and by the calls on other objects) only where everything is documented as copied
+        free = via == 'atoms' or safecopy
         if other is not None:
             intok = afc(op['aslist']) == 5
             check_atoms(other, osnap, oschema, '%s: argument of %s after the call' % (self.where, what), intok=intok)
-            self.retire('%s (the argument)' % what, other, osnap, oschema, intok=intok)
+            if free and self.mutate_in(op, other):
+                # class B: the caller overwrites every property of the Atoms it handed in; the result must not move
+                check_atoms(new, nrows, nschema, '%s: result of %s after the caller overwrote the argument' % (self.where, what))
+                self.labels.add('mut:in:atoms')
+            else:
+                self.retire('%s (the argument)' % what, other, osnap, oschema, intok=intok, free=free)
+            if isinstance(handed.get('symbols'), list):
+                self.mutate_in(op, handed['symbols'])
+        if src.exps and max(src.exps) - min(src.exps) >= 27:
+            self.labels.add('dec:8')
+            if scale:
+                self.labels.add('dec:8:scaled')
         check_atoms(atoms, m.rows, m.schema, '%s: operand of %s after the call' % (self.where, what))
         for key in m.schema:
             require(not np.shares_memory(new.view[key], atoms.view[key]),
                     lambda: '%s: %s: property %r of the result shares memory with the operand' % (self.where, what, key))
-        self.retire(what, atoms, m.rows, m.schema)
+        self.retire(what, atoms, m.rows, m.schema, free=free)
         m.rows, m.schema = nrows, nschema
         if newsys is not None:
             require(newsys.pbc.tolist() == m.pbc, lambda: '%s: %s: pbc %r not copied over (%r)' % (self.where, what, newsys.pbc, m.pbc))
@@ -1002,33 +1310,60 @@ class Run:
         m, s = self.m, self.s
         atoms = s.atoms
         via = op['via']
-        form, idx, sel = self.resolve(op['idx'])
-        src = M.Src(op['vals'], tmax=op['tmax'], whole=whole_of(op['aslist']))
+        aid = bool(op.get('aid')) and via in ('prop', 'sysprop', 'sysprop_scaled')
+        form, idx, sel = self.resolve(op['idx'], force_int=aid)
+        af = op['aslist']
+        scaled = via == 'sysprop_scaled'
+        # the scaled route unscales the positions of the value in place: in a narrow dtype of the value only plain values fit
+        vm = self.vmode(op, af) if not (scaled and afc(af) == 7) else None
+        src = M.Src(op['vals'], tmax=op['tmax'], whole=whole_of(af), mode=vm)
         count = 1 if (form == 'int' or op['vmode'] == 'one' or not sel) else len(sel)
         names = [x for x in m.schema if x not in ('atype', 'pos')]
-        af = op['aslist']
-        if via == 'sysprop_scaled' and afc(af) == 3:
+        if scaled and afc(af) == 3:
             af = 0      # this route unscales the positions of the value in place (tolerated before: the value is not re-checked)
         value, vrows, vschema = self.build_atoms(count, names, src, af, reverse=bool(op['reverse']))
         vsnap = [dict(r) for r in vrows]
-        scaled = via == 'sysprop_scaled'
         if scaled:
+            rel = [r['pos'] for r in vrows]
             for r in vrows:
                 r['pos'] = self.r2c(r['pos'])
         what = '%s assignment of %d atom(s) at index %r' % (via, count, idx)
         sl = slice(None) if form == 'all' else idx
-        if via == 'atoms':
-            atoms[sl] = value
-        elif via == 'ix_atoms':
-            s.atoms_ix[sl] = value
-        elif via == 'ix_system':
-            s.atoms_ix[sl] = self.am.System(atoms=value, box=s.box)
-        elif via == 'prop':
-            atoms.prop(index=idx, value=value) if form != 'all' else atoms.prop(value=value)
-        elif via == 'sysprop':
-            s.atoms_prop(index=idx, value=value) if form != 'all' else s.atoms_prop(value=value)
-        else:
-            s.atoms_prop(index=idx, value=value, scale=True) if form != 'all' else s.atoms_prop(value=value, scale=True)
+        sysval = None
+        if via == 'ix_system':
+            box2 = s.box
+            if op.get('dbox') is not None:
+                # class E: the only tolerance in the code under C06 - atoms_ix[...] = System compares the two boxes with
+                # numpy.allclose and WARNS when they differ; the assignment is the same on either side of that threshold
+                f = 1.0 + 2.0 ** -(8 + op['dbox'] % 36)
+                box2 = self.am.Box(vects=self.V * f, origin=self.o.copy())
+                self.labels.add('near:box')
+            sysval = self.am.System(atoms=value, box=box2)
+
+        def put():
+            if via == 'atoms':
+                atoms[sl] = value
+            elif via == 'ix_atoms':
+                s.atoms_ix[sl] = value
+            elif via == 'ix_system':
+                s.atoms_ix[sl] = sysval
+            elif aid:
+                # class H: the a_id spelling of an integer index together with an Atoms value (and scale)
+                if via == 'prop':
+                    atoms.prop(a_id=idx, value=value)
+                else:
+                    s.atoms_prop(a_id=idx, value=value, scale=scaled)
+                self.labels.add('opt:aid_atoms_set')
+                if scaled:
+                    self.labels.add('opt:aid_atoms_set_scaled')
+            elif via == 'prop':
+                atoms.prop(index=idx, value=value) if form != 'all' else atoms.prop(value=value)
+            elif via == 'sysprop':
+                s.atoms_prop(index=idx, value=value) if form != 'all' else s.atoms_prop(value=value)
+            else:
+                s.atoms_prop(index=idx, value=value, scale=True) if form != 'all' else s.atoms_prop(value=value, scale=True)
+        # (the scaled route is tolerated to unscale the positions of the value in place)
+        self.guarded(put, {'value': value, 'index': sl}, what, skip=('pos',) if scaled else ())
         for name in m.schema:
             if scaled and name == 'pos':
                 continue
@@ -1042,7 +1377,12 @@ class Run:
                 last[i] = e
             intpos = value.view['pos'].dtype.kind in 'iub'      # input class of the finding KEY_INTPOS
             try:
-                self.sync_float3('pos', list(last), [last[i] for i in last], what)
+                if vm:
+                    rels = rel * len(sel) if (len(rel) == 1 and len(sel) != 1) else rel
+                    lastrel = {}
+                    for i, r in zip(sel, rels):
+                        lastrel[i] = r
+                self.sync_float3('pos', list(last), [last[i] for i in last], what, rel=[lastrel[i] for i in last] if vm else None)
             except Violation as v:
                 if intpos and v.key is None:
                     raise Violation('positions of the value given as whole numbers are stored with dtype %s: %s' % (value.view['pos'].dtype, v.detail),
@@ -1058,12 +1398,42 @@ class Run:
                 self.labels.add('scaled_atoms_set_intpos')
         else:
             check_atoms(value, vsnap, vschema, '%s: value of %s after the call' % (self.where, what), intok=(afc(op['aslist']) == 5))
+        if src.exps and max(src.exps) - min(src.exps) >= 27:
+            self.labels.add('dec:8')
+            if scaled:
+                self.labels.add('dec:8:scaled')
         self.indexed_write()
+        if self.mutate_in(op, value):
+            self.labels.add('mut:in:atoms')     # class B: assignment copies, so the object must not follow (judged right after)
 
     def op_setself(self, op):
         m, s = self.m, self.s
         atoms = s.atoms
         n = m.n
+        if op.get('perm') is not None:
+            # class G: the object assigned to ITSELF through an exactly structured selection of all its atoms (identity, mirror
+            # image, cyclic shift, swapped halves, ... written as list / slice / mask): numpy copies an overlapping right-hand
+            # side first, so atom sel[i] receives the old atom i
+            form, idx, sel = self.resolve(dict(op['perm'], k='perm'))
+            if len(sel) != n:           # the all-False mask: nothing selected, a single-atom value broadcasts to nothing
+                value = atoms[0]
+                snap = []
+            else:
+                value = atoms if op['via'] != 'ix' else s
+                snap = m.select(range(n))
+            if op['via'] == 'atoms':
+                atoms[idx] = value
+            elif op['via'] == 'ix':
+                s.atoms_ix[idx] = value
+            else:
+                atoms.prop(index=idx, value=value)
+            for name in m.schema:
+                m.set_rows(name, sel, [r[name] for r in snap] if snap else [m.rows[0][name]])
+            self.labels.add('selfset_perm')
+            if sel != list(range(n)) and len(sel) == n:
+                self.labels.add('selfset_perm_moves')
+            self.indexed_write()
+            return
         k = 1 + op['k'] % n
         a = op['a'] % (n - k + 1)
         b = op['b'] % (n - k + 1)
@@ -1088,15 +1458,19 @@ class Run:
         kind, tshape = M.KINDS[name]
         new = name not in m.schema
         aslist = op['aslist']
-        src = M.Src(op['vals'], whole=whole_of(aslist))
+        src = M.Src(op['vals'], whole=whole_of(aslist), mode=self.vmode(op, aslist))
         na = m.natypes_atoms()
         mode = op['mode']
-        if new and afc(aslist) == 5:
+        if new and afc(aslist) in (5, 7):
             aslist = 0          # see the table of forms
         if mode == 'all':
             vals = src.many(kind, tshape, na)
-            atoms.prop_atype(name, self.to_arg(vals, kind, tshape, aslist))
+            arg = self.to_arg(vals, kind, tshape, aslist)
+            self.guarded(lambda: atoms.prop_atype(name, arg), {'value': arg}, 'prop_atype(%r, value)' % name)
             m.set_all(name, [vals[r['atype'] - 1] for r in m.rows])
+            if src.exps and max(src.exps) - min(src.exps) >= 27:
+                self.labels.add('dec:8')
+            self.mutate_in(op, arg)
         elif mode == 'short':
             vals = src.many(kind, tshape, na - 1)
             self.refusal(lambda: atoms.prop_atype(name, self.to_arg(vals, kind, tshape, aslist)), ValueError,
@@ -1116,7 +1490,9 @@ class Run:
             if op['nptype']:
                 t = np.int64(t)
             v = src.one(kind, tshape)
-            atoms.prop_atype(name, self.one_arg(v, kind, tshape, aslist, new=new), atype=t)
+            arg = self.one_arg(v, kind, tshape, aslist, new=new)
+            self.guarded(lambda: atoms.prop_atype(name, arg, atype=t), {'value': arg}, 'prop_atype(%r, value, atype)' % name)
+            self.mutate_in(op, arg)
             if new:
                 m.set_all(name, [M.default_value(kind, tshape)] * m.n)
                 self.labels.add('ptype_one_newkey')
@@ -1134,8 +1510,10 @@ class Run:
             s.symbols = syms
             m.symbols = [syms]
         else:
-            s.symbols = tuple(syms) if op['astuple'] else list(syms)
+            arg = tuple(syms) if op['astuple'] else list(syms)
+            self.guarded(lambda: setattr(s, 'symbols', arg), {'symbols': arg}, 'symbols setter')
             m.symbols = list(syms)
+            self.mutate_in(op, arg)         # class B: the caller goes on using its list
         self.na_hi = 0      # the setter pads to the number of types now; earlier numbers of types no longer matter (ns_hi keeps them)
 
     def op_masses(self, op):
@@ -1161,7 +1539,7 @@ class Run:
         if toolong:
             # the message states the condition, so it may only be raised when the condition holds
             try:
-                s.masses = arg
+                self.guarded(lambda: setattr(s, 'masses', arg), {'masses': arg}, 'masses setter')
             except ValueError as e:
                 require('More masses than atom types' in str(e), lambda: '%s: masses setter raised ValueError(%s)' % (self.where, e))
                 self.labels.add('refusal')
@@ -1170,15 +1548,19 @@ class Run:
             self.ns_hi = 0
             self.labels.add('masses_toolong_accepted')
             return
-        s.masses = arg
+        self.guarded(lambda: setattr(s, 'masses', arg), {'masses': arg}, 'masses setter')
         m.masses = newm
         self.ns_hi = 0
+        self.mutate_in(op, arg)
 
     def op_pbc(self, op):
         p = [bool(x) for x in op['p']]
         form = op['form']
-        self.s.pbc = p if form == 'list' else tuple(p) if form == 'tuple' else np.array(p)
+        arg = list(p) if form == 'list' else tuple(p) if form == 'tuple' else np.array(p)
+        self.guarded(lambda: setattr(self.s, 'pbc', arg), {'pbc': arg}, 'pbc setter')
         self.m.pbc = p
+        if form == 'list':
+            self.mutate_in(op, arg)     # (an ndarray handed in is kept as it is by numpy.asarray: not overwritten here)
 
     def op_df(self, op):
         s = self.s
@@ -1188,6 +1570,78 @@ class Run:
             self.check_df(s.atoms_df(), False, 'System.atoms_df()')
         else:
             self.check_df(s.atoms_df(scale=True), True, 'System.atoms_df(scale=True)')
+
+    # calls on ANOTHER object (classes A and B) -----------------------------------------------------------
+    def op_side(self, op):
+        """a call on an object other than the one under test - an operand / argument of an earlier operation, or a fresh
+        independent object (one-atom objects built from the constructor defaults included): reads are judged against that
+        object's own rows, writes go into its rows; the object under test and everything in the ledger must not move
+        (judged by the checks that follow every step)"""
+        am = self.am
+        src = M.Src(op['vals'], tmax=op['tmax'])
+        cands = [e for e in self.retired if not e[4]]
+        if op['fresh'] or not cands:
+            k = 1 + op['count'] % 3
+            if op['fresh'] == 2 or not op['fresh']:
+                obj = am.Atoms(natoms=k) if op['count'] % 2 else am.Atoms()
+                k = obj.natoms
+                rows = [{'atype': 1, 'pos': (0.0, 0.0, 0.0)} for _ in range(k)]
+                schema = OrderedDict([('atype', ('t', ())), ('pos', ('f', (3,)))])
+                self.labels.add('side:defaults')
+            else:
+                names = [nm for j, nm in enumerate(POOLNAMES) if (op['pbits'] >> j) & 1]
+                obj, rows, schema = self.build_atoms(k, names, src, 0)
+            self.retire('independent object', obj, rows, schema)
+            entry = self.retired[-1]
+            self.labels.add('side:fresh')
+        else:
+            entry = cands[op['k'] % len(cands)]
+            self.labels.add('side:operand')
+        what, obj, rows, schema, intok, free = entry
+        n = len(rows)
+        name = list(schema)[op['name'] % len(schema)]
+        kind, tshape = schema[name]
+        act = op['act'] % 5
+        if act in (1, 2) and (not free or kind == 's' or n == 0):
+            act = 0
+        w = '%s: call on another object (%s)' % (self.where, what)
+        if act == 0:
+            got = obj.prop(key=name)
+            exp = M.to_array([r[name] for r in rows], kind, tshape)
+            require(isinstance(got, np.ndarray) and got.shape == exp.shape and np.array_equal(got, exp),
+                    lambda: '%s: prop(%r) = %r, its rows say %r' % (w, name, np.asarray(got).tolist(), exp.tolist()))
+            scribble(got)
+            self.keep('prop(%r) of another object' % name, got)
+        elif act == 1:
+            values = src.many(kind, tshape, n)
+            arg = self.to_arg(values, kind, tshape, 0)
+            if op['count'] % 2:
+                obj.prop(key=name, value=arg)
+            else:
+                setattr(obj, name, arg)
+            for r, v in zip(rows, values):
+                r[name] = v
+            self.rekeep(obj)
+            self.labels.add('side:write')
+        elif act == 2:
+            i = op['k'] % n
+            v = src.one(kind, tshape)
+            obj.prop(key=name, index=i, value=self.one_arg(v, kind, tshape, 0))
+            rows[i][name] = v
+            self.rekeep(obj)
+            self.labels.add('side:write')
+        elif act == 3:
+            k = 1 + op['count'] % 2
+            new = obj.extend(k)
+            exp = [dict(r) for r in rows] + [dict((key, 1 if key == 'atype' else M.default_value(*schema[key])) for key in schema) for _ in range(k)]
+            check_atoms(new, exp, schema, w + ': extend(%d)' % k, intok=intok)
+            self.keep('extend(%d) of another object' % k, new)
+        else:
+            sub = copy.deepcopy(obj) if op['count'] % 2 else obj.prop(index=slice(None))
+            check_atoms(sub, rows, schema, w + ': copy', intok=intok)
+            self.keep('copy of another object', sub)
+        check_atoms(obj, rows, schema, w + ': the object itself afterwards', intok=intok)
+        self.side_step = self.stepno
 
     # documented refusals ------------------------------------------------------------------------------
     def op_refuse(self, op):
@@ -1211,7 +1665,18 @@ class Run:
         elif w == 'atype0':
             vals = [1] * n
             vals[op['a'] % n] = 0 if op['a'] % 2 else -1
-            self.refusal(lambda: setattr(atoms, 'atype', vals), ValueError, 'atype values must be >= 1', 'atype = %r' % vals)
+            if afc(op['aslist']) in (5, 7) and not (self.narrow and min(vals) < 0 and atoms.view['atype'].dtype.kind == 'u'):
+                # class C: the offending values in every integer dtype - a zero in an unsigned one included (variants of form 5;
+                # form 7: big-endian)
+                if afc(op['aslist']) == 5:
+                    vals = int_typed(np.array(vals, dtype=np.int64), 't', afv(op['aslist']), self.labels)
+                else:
+                    vals = narrow_typed(np.array(vals, dtype=np.int64), 't', afv(op['aslist']), self.labels)
+                if isinstance(vals, np.ndarray):
+                    self.labels.add('refuse:atype0:typed')
+                    if vals.dtype.kind == 'u':
+                        self.labels.add('refuse:atype0:unsigned')
+            self.refusal(lambda: setattr(atoms, 'atype', vals), ValueError, 'atype values must be >= 1', 'atype = %r' % (vals,))
         elif w == 'aid_index':
             self.refusal(lambda: atoms.prop(key='pos', index=0, a_id=0), ValueError, 'a_id and index cannot both be given', 'prop(index, a_id)')
         elif w == 'aid_index_scaled':
@@ -1277,22 +1742,29 @@ IDX1 = st.one_of(
     FD({'k': J('list'), 'l': st.lists(I(-12, 11), max_size=5), 'np': B}),
     FD({'k': J('mask'), 'a': I(0, 4095), 'np': B}),
 )
-IDX = st.one_of(IDX1, IDX1, IDX1, IDX1, J({'k': 'all'}))
+# class G: exactly structured selections of all atoms (identity, mirror image, cyclic shift, negative spelling, affine
+# permutation, swapped halves; as list / slice / mask)
+PERM = FD({'k': J('perm'), 'p': I(0, 5), 'f': st.sampled_from(['list', 'list', 'slice', 'mask']), 'sh': I(0, 11), 'np': B})
+IDX = st.one_of(IDX1, IDX1, IDX1, IDX1, IDX1, PERM, J({'k': 'all'}))
+MUT = st.sampled_from([0, 0, 1, 2])                     # class B: the caller overwrites (1) and re-uses (2) what it handed in
+VM = st.sampled_from([None, None, None, 'tiny', 'dec'])  # classes E / F: near-threshold values, many decades in one argument
 VMODE = st.sampled_from(['one', 'many', 'many'])
 SYMS = st.lists(st.sampled_from(['Al', 'Cu', 'Fe', 'O', 'H', 'Ni']), max_size=5)
 MASSV = st.one_of(st.none(), I(1, 240).map(lambda k: k / 4.0), I(1, 60))
 MASSES = st.lists(MASSV, max_size=5)
 # forms of a value argument (table above to_arg): two in ten integer-typed, spread over the ten variants of that form
-AF = st.sampled_from([f for f in (False, True, False, True, 2, 3, 4, 6) for _ in range(5)] + [5 + 10 * k for k in range(len(INT_VARIANTS))])
+AF = st.sampled_from([f for f in (False, True, False, True, 2, 3, 4, 6) for _ in range(5)] + [5 + 10 * k for k in range(len(INT_VARIANTS))]
+                     + [7 + 10 * k for k in range(len(FLT_VARIANTS))] * 2)
 # order of the reads after a step (number of a permutation of READS; 0 = the original order) and per-type reads left out
 RD = FD({'o': st.one_of(J(0), I(0, NPERM - 1), I(0, NPERM - 1)), 'skip': st.one_of(J(0), J(0), J(0), I(0, 63), J(63), J(63))})
 
 OPS = {
     'set': FD({'op': J('set'), 'via': st.sampled_from(['attr', 'view', 'prop', 'sysprop']), 'name': NAME,
-               'mode': st.sampled_from(['scalar', 'len1', 'full', 'full']), 'vals': VALS, 'aslist': AF, 'tmax': TMAX}),
+               'mode': st.sampled_from(['scalar', 'len1', 'full', 'full']), 'vals': VALS, 'aslist': AF, 'tmax': TMAX, 'mut': MUT, 'vm': VM}),
     'setidx': FD({'op': J('setidx'), 'via': st.sampled_from(['prop', 'prop', 'sysprop', 'a_id', 'view']), 'name': NAME, 'idx': IDX,
-                  'vmode': VMODE, 'vals': VALS, 'aslist': AF, 'tmax': TMAX}),
-    'scaled_set': FD({'op': J('scaled_set'), 'name': I(0, 1), 'idx': IDX, 'vmode': VMODE, 'vals': VALS, 'aslist': AF}),
+                  'vmode': VMODE, 'vals': VALS, 'aslist': AF, 'tmax': TMAX, 'mut': MUT, 'vm': VM}),
+    'scaled_set': FD({'op': J('scaled_set'), 'name': I(0, 1), 'idx': IDX, 'vmode': VMODE, 'vals': VALS, 'aslist': AF, 'mut': MUT, 'vm': VM,
+                      'aid': st.sampled_from([False, False, False, True])}),
     'get': FD({'op': J('get'), 'via': st.sampled_from(['prop', 'prop', 'sysprop', 'a_id', 'scaled']), 'name': NAME, 'idx': IDX}),
     'getatoms': FD({'op': J('getatoms'), 'via': st.sampled_from(['getitem', 'getitem', 'atoms_ix', 'atoms_ix', 'prop', 'prop', 'a_id', 'sysprop',
                                                                  'scaled', 'deepcopy', 'deepcopy_sys']),
@@ -1300,16 +1772,21 @@ OPS = {
     'extend': FD({'op': J('extend'), 'via': st.sampled_from(['atoms', 'system']), 'what': st.sampled_from(['int', 'atoms', 'atoms']),
                   'count': I(0, 3), 'same': st.sampled_from([False, False, True]), 'pbits': I(0, 1023), 'vals': VALS, 'aslist': AF,
                   'tmax': TMAX, 'scale': st.sampled_from([False, False, False, True]), 'symbols': st.one_of(st.none(), st.none(), SYMS),
-                  'safecopy': B}),
+                  'safecopy': B, 'mut': MUT, 'vm': VM, 'eq': st.sampled_from([0, 0, 0, 0, 1, 2])}),
     'setitem': FD({'op': J('setitem'), 'via': st.sampled_from(['atoms', 'atoms', 'ix_atoms', 'ix_system', 'prop', 'sysprop', 'sysprop_scaled']),
-                   'idx': IDX, 'vmode': VMODE, 'vals': VALS, 'aslist': AF, 'tmax': TMAX, 'reverse': B}),
-    'setself': FD({'op': J('setself'), 'via': st.sampled_from(['atoms', 'ix', 'prop']), 'a': I(0, 11), 'b': I(0, 11), 'k': I(0, 11)}),
+                   'idx': IDX, 'vmode': VMODE, 'vals': VALS, 'aslist': AF, 'tmax': TMAX, 'reverse': B, 'mut': MUT, 'vm': VM,
+                   'aid': st.sampled_from([False, False, False, True]), 'dbox': st.one_of(st.none(), I(0, 35))}),
+    'setself': FD({'op': J('setself'), 'via': st.sampled_from(['atoms', 'ix', 'prop']), 'a': I(0, 11), 'b': I(0, 11), 'k': I(0, 11),
+                   'perm': st.one_of(st.none(), st.none(), PERM)}),
     'ptype': FD({'op': J('ptype'), 'name': NAME, 'mode': st.sampled_from(['all', 'all', 'one', 'one', 'one', 'short', 'absent']),
-                 't': I(0, 11), 'vals': VALS, 'aslist': AF, 'nptype': B}),
-    'symbols': FD({'op': J('symbols'), 'syms': st.one_of(SYMS, SYMS, st.sampled_from(['Al', 'Cu'])), 'astuple': B}),
+                 't': I(0, 11), 'vals': VALS, 'aslist': AF, 'nptype': B, 'mut': MUT, 'vm': VM}),
+    'symbols': FD({'op': J('symbols'), 'syms': st.one_of(SYMS, SYMS, st.sampled_from(['Al', 'Cu'])), 'astuple': B, 'mut': MUT}),
     'masses': FD({'op': J('masses'), 'masses': st.one_of(MASSES, MASSES, I(1, 240).map(lambda k: k / 4.0)), 'fit': st.sampled_from([True, True, False]),
-                  'astuple': B}),
-    'pbc': FD({'op': J('pbc'), 'p': st.lists(B, min_size=3, max_size=3), 'form': st.sampled_from(['list', 'tuple', 'array'])}),
+                  'astuple': B, 'mut': MUT}),
+    'pbc': FD({'op': J('pbc'), 'p': st.lists(B, min_size=3, max_size=3), 'form': st.sampled_from(['list', 'tuple', 'array']), 'mut': MUT}),
+    # classes A / B: a call on another object (operand / argument of an earlier operation, or a fresh independent one)
+    'side': FD({'op': J('side'), 'fresh': st.sampled_from([0, 0, 0, 1, 2]), 'k': I(0, 11), 'count': I(0, 5), 'pbits': I(0, 1023), 'name': NAME,
+                'act': I(0, 4), 'vals': VALS, 'tmax': TMAX}),
     'df': FD({'op': J('df'), 'via': st.sampled_from(['atoms', 'system', 'scaled'])}),
     'refuse': FD({'op': J('refuse'), 'which': st.sampled_from(['badlen', 'badlen', 'badlen', 'atype0', 'atype0', 'aid_index', 'aid_index_scaled',
                                                                'value_not_atoms', 'value_not_atoms_scaled', 'mismatch', 'mismatch', 'ix_not_atoms',
@@ -1317,12 +1794,12 @@ OPS = {
                   'name': NAME, 'a': I(0, 11), 'vals': VALS, 'aslist': AF}),
 }
 WEIGHTS = {'set': 4, 'setidx': 5, 'scaled_set': 2, 'get': 3, 'getatoms': 4, 'extend': 4, 'setitem': 4, 'setself': 2, 'ptype': 4,
-           'symbols': 1, 'masses': 1, 'pbc': 1, 'df': 1, 'refuse': 2}
+           'symbols': 1, 'masses': 1, 'pbc': 1, 'df': 1, 'refuse': 2, 'side': 2}
 OP = st.one_of(*[st.tuples(OPS[k], RD).map(lambda t: dict(t[0], rd=t[1])) for k, w in WEIGHTS.items() for _ in range(w)])
 INIT = FD({'n': I(0, 5), 'ctor': st.sampled_from(['natoms', 'bcast', 'lists', 'lists', 'arrays', 'arrays', 'prop']), 'props': I(0, 1023),
            'vals': VALS, 'box': I(0, 3), 'pbc': st.lists(B, min_size=3, max_size=3), 'scale': st.sampled_from([False, False, True]),
            'symbols': st.one_of(st.none(), SYMS, st.sampled_from(['Al', 'Cu'])), 'masses': st.one_of(st.none(), MASSES), 'safecopy': B,
-           'af': st.sampled_from([None, None, None, 2, 4, 6]), 'rd': RD})
+           'af': st.sampled_from([None, None, None, 2, 4, 6]), 'rd': RD, 'sd': st.sampled_from([0, 0, 0, 0, 1, 2, 3, 4, 5]), 'mut': B})
 HISTORY = FD({'init': INIT, 'fin': RD, 'ops': st.one_of(st.lists(OP, min_size=1, max_size=10), st.lists(OP, min_size=10, max_size=30), st.lists(OP, min_size=15, max_size=30))})
 
 
